@@ -184,7 +184,13 @@ def run_impl(binary, scn, strace=None, inject=None, timeout=20, with_mtime=False
             # a run that eats memory or fills the disk (an endless read of a device, an endless write) must not take the checker with it
             if limit_as:
                 resource.setrlimit(resource.RLIMIT_AS, (3 << 30, 3 << 30))
-            resource.setrlimit(resource.RLIMIT_FSIZE, (256 << 20, 256 << 20))
+            if scn.get("fsize0"):
+                # nothing can be written anywhere (as on a full disk): every write(2) to a regular file fails with EFBIG
+                import signal
+                signal.signal(signal.SIGXFSZ, signal.SIG_IGN)
+                resource.setrlimit(resource.RLIMIT_FSIZE, (0, 0))
+            else:
+                resource.setrlimit(resource.RLIMIT_FSIZE, (256 << 20, 256 << 20))
         sin = scn.get("stdin")
         timed_out = False
         try:
